@@ -224,7 +224,14 @@ impl Check for SnapshotCheck {
         k.n_ops = rng.range(1, 7) as usize;
         k.max_txn_ops = rng.range(1, 5) as usize;
         k.big_values = false;
-        let ops = gen_history(&mut rng, &k);
+        let mut ops = gen_history(&mut rng, &k);
+        let one_compaction = avoid.iter().any(|a| a == "second_compaction_with_open_snapshot");
+        if one_compaction {
+            // F43: a snapshot open across the second compaction sees later property values
+            let mut seen = false;
+            ops.retain(|o| !matches!(o, Op::Compact) || !std::mem::replace(&mut seen, true));
+        }
+        let mut compactions = ops.iter().filter(|o| matches!(o, Op::Compact)).count();
         let params = ConcParams {
             mode: gen_mode(&mut rng),
             readers: rng.range(1, 3) as usize,
@@ -234,7 +241,8 @@ impl Check for SnapshotCheck {
             maintenance: if rng.chance(0.5) {
                 (0..rng.range(1, 3))
                     .map(|_| {
-                        if rng.chance(0.7) && append_only(&ops) {
+                        if rng.chance(0.7) && append_only(&ops) && !(one_compaction && compactions > 0) {
+                            compactions += 1;
                             Op::Compact
                         } else {
                             Op::CreateIndex { label: rng.pick(&crate::model::LABELS).to_string(), prop: rng.pick(&crate::model::KEYS).to_string() }
